@@ -279,7 +279,9 @@ def build(tier, seed):
     pv("occ", list(range(16)))
     lux_q = sorted({0, 1, 2, 511, 512, 1022, 1023} | {rng.randrange(1024) for _ in range(24)})
     pv("lux", (list(range(1024)) if tier == "thorough" else lux_q) + [-1, 1024, 4096, NONINT])
-    evclasses = [(name, "none") for _, name in t["pushbutton"]] + [("303.OccupancyEvent", "occ"), ("304.LightEvent", "lux")]
+    # (push-button events carry their own event code: a data argument on top of it must not turn them into another event)
+    pv("pbdata", [NOARG, 0, 1, 2, 3, 9, 14, 1023])
+    evclasses = [(name, "pbdata") for _, name in t["pushbutton"]] + [("303.OccupancyEvent", "occ"), ("304.LightEvent", "lux")]
     f64 = list(range(64)) if tier == "thorough" else [0, 1, 31, 32, 62, 63]
     for q, pvn in evclasses:
         if q not in CLASSES:
